@@ -31,7 +31,7 @@ type BoundedSpec struct {
 func runBounded(v *Verifier, root, repo, prop string, b BoundedSpec, tier string, seed int) BoundedResult {
 	t0 := time.Now()
 	env := []string{"VERIF_TIER=" + tier, fmt.Sprintf("VERIF_SEED=%d", seed), "VERIF_BOUNDED=1"}
-	timeout := 120 * time.Second
+	timeout := 300 * time.Second
 	if tier == "thorough" {
 		timeout = 900 * time.Second
 	}
